@@ -131,12 +131,22 @@ Section Equivariance.
   Lemma join_dir_sub d t : d <> [] -> join_dir d t = with_slash d ++ t.
   Proof. destruct d; [congruence|reflexivity]. Qed.
 
-  Lemma resolve_store_equivariant d pr ts stored : d <> [] ->
+  Lemma rebase_targets_store_sub sep ec d ts : d <> [] ->
+    rebase_targets_store sep ec d ts =
+    Some (match ts with
+          | Some [] => if ec then [if sep then with_slash d else d] else []
+          | Some l => map (fun t => (if sep then with_slash d else d) ++ t) l
+          | None => [if sep then with_slash d else d] end).
+  Proof. destruct d; [congruence|reflexivity]. Qed.
+
+  (* an empty target list has nothing to prefix: what it means from a subdirectory is the subject of
+     no_targets_under_cwd / empty_targets_under_cwd below *)
+  Lemma resolve_store_equivariant d pr ts stored : d <> [] -> ts <> Some [] ->
     resolve_store gms is_dir sites_fixed {| cwd := d; proc := pr |} ts stored =
     resolve_store gms is_dir sites_fixed at_root (a_targets (rebase_args d {| a_targets := ts; a_dest := None |})) stored.
   Proof.
-    intros Hd. unfold resolve_store. cbn [cwd st_store_sep sites_fixed at_root a_targets rebase_args].
-    rewrite rebase_targets_sub by exact Hd. destruct ts; reflexivity.
+    intros Hd Hne. unfold resolve_store. cbn [cwd st_store_sep st_store_empty_cwd sites_fixed at_root a_targets rebase_args].
+    rewrite rebase_targets_store_sub by exact Hd. destruct ts as [[|t l]|]; [congruence|reflexivity|reflexivity].
   Qed.
 
   Lemma file_targets_root w w' ts :
@@ -198,13 +208,14 @@ Section Equivariance.
      command at the root with its arguments rebased *)
   Theorem plan_equivariant_fixed d pr a stored :
     subdir d ->
+    a_targets a <> Some [] ->
     match a_dest a with Some s => rel_arg s = true | None => True end ->
     plan_of sites_fixed {| cwd := d; proc := pr |} a stored =
     plan_of sites_fixed at_root (rebase_args d a) stored.
   Proof.
-    intros Hs Hdst. destruct a as [ts dst]. unfold plan_of, Model.plan_of.
-    cbn [a_targets a_dest rebase_args].
-    pose proof (resolve_store_equivariant d pr ts stored (proj2 Hs)) as E1.
+    intros Hs Hne Hdst. destruct a as [ts dst]. unfold plan_of, Model.plan_of.
+    cbn [a_targets a_dest rebase_args]. cbn [a_targets] in Hne.
+    pose proof (resolve_store_equivariant d pr ts stored (proj2 Hs) Hne) as E1.
     pose proof (resolve_disk_equivariant d pr ts (proj2 Hs)) as E2.
     pose proof (track_dirs_equivariant d pr ts Hs) as E3.
     cbn [a_targets rebase_args] in E1, E2, E3. rewrite E1, E2, E3.
@@ -221,11 +232,22 @@ Section Equivariance.
     resolve_store gms is_dir sites_fixed {| cwd := d; proc := pr |} None stored =
     filter (starts_with (with_slash d)) stored.
   Proof.
-    intros Hd. unfold resolve_store. cbn [cwd st_store_sep sites_fixed].
-    rewrite rebase_targets_sub by exact Hd. unfold filter_by_globs. cbn [map].
+    intros Hd. unfold resolve_store. cbn [cwd st_store_sep st_store_empty_cwd sites_fixed].
+    rewrite rebase_targets_store_sub by exact Hd. unfold filter_by_globs. cbn [map].
     unfold norm_dir_glob. rewrite with_slash_ends. cbn [negb andb].
     unfold matcher_glob. rewrite with_slash_ends.
     apply filter_ext. intros p. apply gms_dir, with_slash_ends.
+  Qed.
+
+  (* the commands that hand over their target LIST (remove, untrack) give an empty list when no target is
+     named: the same paths, those under the current directory *)
+  Theorem empty_targets_under_cwd d pr stored : d <> [] ->
+    resolve_store gms is_dir sites_fixed {| cwd := d; proc := pr |} (Some []) stored =
+    filter (starts_with (with_slash d)) stored.
+  Proof.
+    intros Hd. rewrite <- (no_targets_under_cwd d pr stored Hd).
+    unfold resolve_store. cbn [cwd st_store_sep st_store_empty_cwd sites_fixed].
+    rewrite !rebase_targets_store_sub by exact Hd. reflexivity.
   Qed.
 
   Theorem no_targets_at_root stored :
